@@ -115,6 +115,10 @@ pub fn run_trackers(rep: &Report, tier: Tier) {
         ("tight-then-looser", Some(vec![(1, 0.1), (2, 0.6)]), false),
         ("gap1-only", Some(vec![(1, 0.3)]), false),
         ("unsorted-duplicate-gap", Some(vec![(2, 0.05), (1, 1.0), (2, 9.0)]), false),
+        // entries configured for gaps beyond max_idle (2) are still the applicable limit for every smaller gap
+        ("catch-all-beyond-max-idle", Some(vec![(10, 0.3)]), false),
+        ("gap1-then-catch-all-beyond-max-idle", Some(vec![(1, 0.9), (7, 0.2)]), false),
+        ("slack-beyond-max-idle", Some(vec![(9, 100.0)]), true),
     ];
     let len = tier.pick(5usize, 6usize);
     let words: Arc<Vec<Vec<usize>>> = Arc::new(super::hist::words(5, len));
